@@ -296,7 +296,9 @@ def handleRf (r : Reduction) (sel : Option (List Nat)) (fields : List FMeta) (ro
 def handle (c obs : String) : String × Bool × String :=
   match splitAt "|" (words c) with
   | ["ar", red, ty, d] :: [[recs]] =>
-    match parseTsReducer? red, d.toInt? with
+    -- "<red>@h": observed after earlier, early-stopped materialisations of the same stream value (harness/run/c14.go):
+    -- the reductions are those of a first materialisation
+    match parseTsReducer? ((red.splitOn "@").headD red), d.toInt? with
     | some red, some d =>
       if d ≤ 0 then ("bad-case", false, "period") else
       if ty == "i" then handleAr (Num.int DF) wireInt exactInt red d recs obs
